@@ -214,7 +214,20 @@ def returned_bool(fn: ast.FunctionDef, resolve=None, _depth: int = 0):
                             return _SubstNames(m).visit(copy.deepcopy(sub))
                 return n
         e = Inl().visit(e)
-    return ast.fix_missing_locations(e)
+    return ast.fix_missing_locations(_nnf(e))
+
+
+def _nnf(e):
+    """negations pushed to the leaves (`not (a != b or c != d)` is `a == b and c == d`): the same boolean in the spelling dnf reads"""
+    if isinstance(e, ast.BoolOp):
+        return ast.copy_location(ast.BoolOp(op=e.op, values=[_nnf(v) for v in e.values]), e)
+    if isinstance(e, ast.UnaryOp) and isinstance(e.op, ast.Not) and (isinstance(e.operand, (ast.BoolOp, ast.UnaryOp)) or
+                                                                     (isinstance(e.operand, ast.Compare) and len(e.operand.ops) == 1 and type(e.operand.ops[0]) in _NEG)):
+        inner = e.operand
+        if isinstance(inner, ast.UnaryOp) and not isinstance(inner.op, ast.Not):
+            return e
+        return _nnf(ast.copy_location(_not(inner), e))
+    return e
 
 
 class _Names(ast.NodeTransformer):
